@@ -6,20 +6,26 @@ Tie: the real `make_distance_matrix_from_adjacency_matrix`, `determine_optimal_i
 (`gr.dist`, `gr.components`, `gr.inttype`, `gr.gh`, `gr.symm`), exact comparison of integer matrices, dtype,
 warning flag, error kind; scipy's `shortest_path` / `connected_components` are contracts of the model and are
 exercised by that exact comparison on every case.
-[T]: the laws of the statement evaluated on the real code (formats agree, relabelling, symmetric zero-diagonal
-collections whose entries are the pair results under the same RNG state, lower bounds identical across formats,
-brackets valid against an exhaustive mGH oracle for <= 6 vertices, disconnected graphs warn and do not raise;
+[T]: the laws of the statement evaluated on the real code (formats agree, relabelling, N x N symmetric zero-diagonal
+collections with lb <= ub whose lower bounds are the pair calls' and whose entries bracket the distance, lower bounds
+identical across formats, brackets valid against an exhaustive mGH oracle for <= 6 vertices (skips are counted; identical
+spaces beyond that range must get lb = 0), disconnected graphs come with a warning - any Warning - and do not raise, the
+disconnected-graph warning (recognised by its text) does not appear for connected graphs;
 relabelled disconnected graphs give the relabelled block of the / a largest component; pairs of 128/129-vertex paths,
 stars and cycles through the public entry point; one case showing scipy's dense-reader tolerance / stored zeros).
 With a TIE between largest components the statement leaves the choice open: every tied component's block is accepted
 for the property verdict, a tie-break other than the model's (first vertex) is only a correspondence break.
+Correspondence only as well (never a claimed failing input): the dtype of the distance matrix and the helper
+determine_optimal_int_type, the warning's category, the error kind on malformed input, identical UPPER bounds across
+formats, and HOW a collection computes its entries (one estimate call per pair right after that pair's distance matrices,
+entry = pair call from the RNG state reached there - hoisting the distance matrices out of the loop is legitimate).
 """
 import itertools, math, warnings
 from collections import deque
 import numpy as np
 import scipy.sparse as sps
 from scipy.sparse.csgraph import connected_components
-from .. import common
+from .. import common, corethm
 from ..translator import py2lean
 from ..common import enc, ask, call
 
@@ -131,7 +137,9 @@ def is_metric(M):
                 return False
             for j in range(n):
                 x = M[i][j]
-                if not (isinstance(x, int) and x >= 0) or x != M[j][i] or (i != j and x == 0):
+                # the VALUES make a metric; whether they arrive as int8 or float64 is not part of the statement
+                if isinstance(x, bool) or not isinstance(x, (int, float)) or not math.isfinite(x) or x < 0 \
+                        or x != M[j][i] or (i != j and x == 0):
                     return False
         return all(M[i][k] <= M[i][j] + M[j][k] for i in range(n) for j in range(n) for k in range(n))
     except Exception:
@@ -376,13 +384,55 @@ def gh():
     return common.pm("gromov_hausdorff")
 
 
+def call_w(fn, *a, **k):
+    """like common.call, but keeps the warnings themselves: (status, value | error kind, [(category, message text)])"""
+    with warnings.catch_warnings(record=True) as w:
+        warnings.simplefilter("always")
+        try:
+            st, v = "ok", fn(*a, **k)
+        except Exception as e:  # the error kind is compared with the model (correspondence); "raises" is the property
+            st, v = "err", type(e).__name__
+    return st, v, [(x.category, str(x.message)) for x in w]
+
+
+def warned_any(w):
+    """the statement's "with a warning": ANY warning raised during the call satisfies it (category and wording are free)"""
+    return any(isinstance(c, type) and issubclass(c, Warning) for c, _ in w)
+
+
+def warned_disconnected(w):
+    """a warning that - read loosely, by its text, whatever its category - says the graph was disconnected / cut down to a
+    component.  Only this one must not appear for a connected graph; unrelated warnings (sparse efficiency, deprecations)
+    may accompany any call"""
+    return any(any(t in m.lower() for t in ("disconnect", "connected component", "largest component", "not connected"))
+               for _, m in w)
+
+
+def warned_model(w):
+    """the flag compared with the MODEL (correspondence only): the present code's plain UserWarning"""
+    return any(c.__name__ == "UserWarning" for c, _ in w)
+
+
+def wnames(w):
+    return sorted(set("%s(%s)" % (c.__name__, m[:40]) for c, m in w))
+
+
+def warning_verdict(w, disc):
+    """None, or how the warning clause of the statement fails"""
+    if disc and not warned_any(w):
+        return "no warning for a disconnected graph"
+    if not disc and warned_disconnected(w):
+        return "warned about a disconnected graph although every graph is connected"
+    return None
+
+
 def run_dist(obj):
-    """('ok', D list, bits, warned, nwarn) or ('err', kind)"""
-    st, v, w = call(gh().make_distance_matrix_from_adjacency_matrix, obj)
+    """('ok', D list, bits, model's warning flag, shape, warnings) or ('err', kind)"""
+    st, v, w = call_w(gh().make_distance_matrix_from_adjacency_matrix, obj)
     if st == "err":
         return ("err", v)
     return ("ok", np.asarray(v).tolist(), int(np.asarray(v).dtype.itemsize * 8) if np.asarray(v).dtype.kind == "i" else -1,
-            "UserWarning" in w, shape_of(v))
+            warned_model(w), shape_of(v), w)
 
 
 def shape_of(v):
@@ -430,7 +480,7 @@ def run_gh(objs, pair, seed=None, state=None):
     if state is not None:
         np.random.set_state(state)
     with Recorder() as rec:
-        st, v, w = call(f, objs[0], objs[1]) if pair else call(f, objs)
+        st, v, w = call_w(f, objs[0], objs[1]) if pair else call_w(f, objs)
     return st, v, w, rec.calls
 
 
@@ -446,13 +496,13 @@ def dist_property(E, code):
     space, disc, largest = o_space(E)
     if code[0] == "err":
         return "raised %s on a well-formed %s graph" % (code[1], "disconnected" if disc else "connected")
-    _, D, bits, warned, shape = code
+    _, D, bits, _, shape, w = code
     if len(shape) != 2 or shape[0] != shape[1]:
         return "returned a non-square array of shape %s" % shape
     if not is_metric(D):
         return "returned a matrix that is not a metric (shape %s)" % shape
-    if disc != warned:
-        return "warning flag %s for a %s graph" % (warned, "disconnected" if disc else "connected")
+    if warning_verdict(w, disc):
+        return warning_verdict(w, disc) + " (warnings: %s)" % wnames(w)
     if D != space and D not in o_spaces(E):
         # a different one of several equally large components is NOT a violation (the statement leaves the tie open;
         # only the model's tie-break, first vertex, is a correspondence matter)
@@ -461,12 +511,12 @@ def dist_property(E, code):
         if len(D) < max(sizes):
             return "kept %d vertices although the largest component has %d" % (len(D), max(sizes))
         return "distance matrix is not that of a largest connected component"
-    if bits not in (8, 16, 32, 64) or max(max(r) for r in D) > 2 ** (bits - 1) - 1:
-        return "dtype (%s bits) cannot hold the largest distance" % bits
+    # the dtype is not part of the statement: a type too narrow for the distances shows as wrong VALUES above; the width
+    # itself is compared with the model only (canon_dist, correspondence)
     return None
 
 
-def relabelled_block_ok(U, p, cm):
+def relabelled_block_ok(U, p, cm, warned=None):
     """U: the graph, p: the relabelling (A'[a][b] = A[p[a]][p[b]]), cm: canonical result for the relabelled graph.
     The expected block: for a largest component C of U, the new labels a with p[a] in C, increasing, with the
     distances of U between the p[a].  Returns (ok, unique-largest?)"""
@@ -481,7 +531,7 @@ def relabelled_block_ok(U, p, cm):
         cs = set(C)
         keep = [a for a in range(len(p)) if p[a] in cs]
         want.append([[D[p[a]][p[b]] for b in keep] for a in keep])
-    return cm[0] in want and cm[1] is True, len(largest) == 1
+    return cm[0] in want and (cm[1] is True if warned is None else warned), len(largest) == 1
 
 
 def well_formed(E):
@@ -496,6 +546,14 @@ def canon_dist(code):
     if code[0] == "err":
         return "err:" + code[1]
     return [code[1], code[3], code[2]]
+
+
+def law_canon(code):
+    """what the [T] laws compare between representations: the distances and whether a warning was raised - not the dtype,
+    not the warning's category"""
+    if code[0] == "err":
+        return "err"
+    return [code[1], warned_any(code[5])]
 
 
 def canon_model(ans):
@@ -609,20 +667,23 @@ def stream_dist(ctx):
                              short(cm), short(mm)), case, found_input=why is not None, correspondence="gr.dist")
             if stop(ctx):
                 return
-            continue
+            if why is not None:
+                continue
+            # differs from the model only (dtype, warning category, tie-break): the laws below are still evaluated
         # [T] laws on the real code: every representation of the same labelled graph gives the same answer,
         # a relabelling permutes the answer (connected graphs; a disconnected graph may select another component)
         key = id(U)
+        lc = law_canon(code)
         if meta["perm"] is None:
             if key not in base:
-                base[key] = cm
-            ok = cm == base[key]
+                base[key] = lc
+            ok = lc == base[key]
             ctx.test("formats_agree", ok)
             if not ok:
                 ctx.violation("two representations of the same labelled graph give different distance matrices",
                               {"op": "dist", "container": meta["container"], "entries": E,
                                "other_entries": U, "other_container": "list"}, law="formats_agree")
-        elif key in base and not isinstance(base[key], str) and not base[key][1]:
+        elif key in base and not isinstance(base[key], str) and not o_space(U)[1]:
             p = meta["perm"]
             D0 = base[key][0]
             ok = (not isinstance(cm, str)) and cm[0] == [[D0[p[a]][p[b]] for b in range(len(p))] for a in range(len(p))]
@@ -631,11 +692,11 @@ def stream_dist(ctx):
                 ctx.violation("distance matrix of a relabelled connected graph is not the relabelled distance matrix",
                               {"op": "dist", "container": meta["container"], "entries": E, "perm": p, "other_entries": U},
                               law="relabel")
-        elif key in base and not isinstance(base[key], str) and base[key][1]:
+        elif key in base and not isinstance(base[key], str):
             # disconnected: with a UNIQUE largest component the relabelled graph must give the relabelled block
             # (theorem relabel_unique_largest); with a tie any of the tied components' blocks is acceptable
             p = meta["perm"]
-            ok, unique = relabelled_block_ok(U, p, cm)
+            ok, unique = relabelled_block_ok(U, p, cm, warned=code[0] == "ok" and warned_any(code[5]))
             ctx.test("relabel_equivariant_disconnected_unique" if unique else "relabel_disconnected_tie_some_largest", ok)
             if not ok:
                 ctx.violation("distance matrix of a relabelled disconnected graph is not the relabelled block of %s largest component"
@@ -683,11 +744,14 @@ def stream_inttype(ctx):
         model = ans if isinstance(ans, str) else int(ans)
         ctx.case({"op": "inttype", "value": v}, nontrivial=v > 127, sample_every=10 ** 9)
         if code != model:
+            # a private helper and a dtype: not in the statement.  A type too narrow for a distance matrix shows as wrong
+            # distances in stream_dist (paths of 128..130 vertices, the long cycle) and as wrong bounds in stream_big_pairs,
+            # through the functions the statement is about; here the difference is a correspondence break only.
             suff = isinstance(code, int) and v <= 2 ** (code - 1) - 1
             bad = (isinstance(code, str) and v <= 2 ** 63 - 1) or (isinstance(code, int) and not suff)
             report(ctx, "determine_optimal_int_type(%d): code=%s model=%s%s" % (v, code, model,
                           " (the chosen type cannot hold the value)" if bad else ""),
-                          {"op": "inttype", "value": v}, found_input=bad, correspondence="gr.inttype")
+                          {"op": "inttype", "value": v}, found_input=False, correspondence="gr.inttype")
             if stop(ctx):
                 return
 
@@ -710,7 +774,7 @@ def stream_limits(ctx):
             "dense 2e-8": run_dist(above), "bsr auto blocks %s" % (bsr_auto.blocksize,): run_dist(bsr_auto),
             "same entries dense": run_dist(P)}
     edge, noedge = [[0, 1], [1, 0]], [[0]]
-    as_documented = (seen["dense 1e-9"][:2] == ("ok", noedge) and seen["dense 1e-9"][3] is True
+    as_documented = (seen["dense 1e-9"][:2] == ("ok", noedge) and warned_any(seen["dense 1e-9"][5])
                      and seen["csr 1e-9"][:2] == ("ok", edge) and seen["csr stored 0"][:2] == ("ok", edge)
                      and seen["dense 2e-8"][:2] == ("ok", edge))
     bsr_differs = bsr_auto.blocksize != (1, 1) and seen["bsr auto blocks %s" % (bsr_auto.blocksize,)] != seen["same entries dense"]
@@ -777,23 +841,30 @@ def stream_relabel_lb(ctx):
         ctx.test("relabelled_self_pair_lb_zero", why is None)
         ctx.count("relabel_lb:n=%d" % n)
         if why:
-            ctx.violation("relabelling changes the bracket: " + why,
-                          {"op": "bigpair", "name": "relabelled %d-vertex graph" % n, "seed": 0, "order": [0.0, 0.0], "container": "int",
-                           "entries": [U1, U2], "isomorphic": True}, law="bigpair")
-            return
+            # find_lb / make_distance_matrix are called here with the harness's own convention: the claim is made through
+            # the PUBLIC entry point (the same case, which is also what the replay runs); only a failure there is a
+            # failing input
+            case = {"op": "bigpair", "name": "relabelled %d-vertex graph" % n, "seed": 0, "order": [0.0, 0.0], "container": "int",
+                    "entries": [U1, U2], "isomorphic": True}
+            ok_pub, why_pub = big_pair_ok(case)
+            if not ok_pub:
+                ctx.violation("relabelling changes the bracket: %s; gromov_hausdorff on the pair: %s" % (why, why_pub), case, law="bigpair")
+                return
+            report(ctx, "find_lb called directly: %s, but gromov_hausdorff on the same pair is fine %s" % (why, why_pub), case,
+                   found_input=False, correspondence="find_lb (direct call)")
 
 
 def big_pair_ok(c):
     U1, U2 = c["entries"]
     np.random.seed(c["seed"])
     with np.errstate(all="ignore"):
-        st, v, w = call(gh().gromov_hausdorff, pack(U1, c["container"]), pack(U2, c["container"]),
-                        mapping_sample_size_order=np.array(c["order"]))
+        st, v, w = call_w(gh().gromov_hausdorff, pack(U1, c["container"]), pack(U2, c["container"]),
+                          mapping_sample_size_order=np.array(c["order"]))
     if st == "err":
         return False, "raised " + str(v)
     lb, ub = float(v[0]), float(v[1])
-    if "UserWarning" in w:
-        return False, "warned about a disconnected graph although both graphs are connected"
+    if warned_disconnected(w):
+        return False, "warned about a disconnected graph although both graphs are connected: %s" % wnames(w)
     if not (0 <= lb <= ub) or (2 * lb) % 1 != 0 or (2 * ub) % 1 != 0:
         return False, "bounds (%s, %s) are not 0 <= lb <= ub in multiples of 1/2" % (lb, ub)
     if c["isomorphic"] and lb != 0:
@@ -814,7 +885,19 @@ def check_brackets(ctx, E1, E2, lb, ub, case, limit):
     S1, S2 = o_spaces(E1), o_spaces(E2)
     s1, s2 = S1[0], S2[0]
     if len(s1) > limit or len(s2) > limit or len(s1) ** len(s2) > 50000 or len(s2) ** len(s1) > 50000:
+        # beyond the exhaustive oracle.  One exact value is still known: identical spaces are at distance 0, so the lower
+        # bound must be 0 (with several largest components the choice is open: checked only when it is unique)
+        if s1 == s2 and len(S1) == 1 and len(S2) == 1:
+            ctx.count("brackets_checked:identical_spaces_beyond_exhaustive_range")
+            ok = lb == 0 and ub >= 0
+            ctx.test("brackets_valid", ok)
+            if not ok:
+                ctx.violation("bounds do not bracket the mGH distance of two identical spaces: lb=%s ub=%s mGH=0" % (lb, ub),
+                              dict(case, mgh=0.0), law="brackets")
+            return ok
+        ctx.count("brackets_skipped:spaces_beyond_exhaustive_range")
         return True
+    ctx.count("brackets_checked:exhaustive")
     d = o_mgh(s1, s2)
     ok = lb <= d <= ub
     if not ok and len(S1) * len(S2) > 1:
@@ -868,12 +951,14 @@ def stream_pairs(ctx):
                     "entries": [m1["entries"], m2["entries"]]}
             ctx.case(case, nontrivial=len(U1) >= 3 and len(U2) >= 2, sample_every=173)
             disc = o_space(U1)[1] or o_space(U2)[1]
-            # graceful degradation on the real code
-            okr = st == "ok" and (("UserWarning" in w) == disc)
+            # graceful degradation on the real code: no exception; a disconnected graph comes with a warning (any); the
+            # disconnected-graph warning is not raised when every graph is connected (unrelated warnings may be)
+            okr = st == "ok" and warning_verdict(w, disc) is None
             ctx.test("pair_no_raise_and_warns_iff_disconnected", okr)
             if not okr:
                 ctx.violation("gromov_hausdorff(AG, AH) on well-formed graphs: %s, warnings %s, disconnected=%s"
-                              % ("raised " + str(val) if st == "err" else "returned", w, disc), case, law="graceful")
+                              % ("raised " + str(val) if st == "err" else "returned; " + str(warning_verdict(w, disc)), wnames(w), disc),
+                              case, law="graceful")
                 if stop(ctx):
                     return
                 continue
@@ -893,12 +978,18 @@ def stream_pairs(ctx):
             if v == 0:
                 lb0, ub0 = lb, ub
             elif v == 1:
-                # identical labelling, other formats, same RNG seed: identical lower AND upper bounds
-                ok = lb == lb0 and ub == ub0
-                ctx.test("bounds_identical_across_formats", ok)
+                # identical labelling, other formats: identical LOWER bounds is what the statement promises.  The upper
+                # bound (same RNG seed) is identical in the model; a difference there is a correspondence matter - both
+                # upper bounds still have to bracket the distance (check_brackets above).
+                ok = lb == lb0
+                ctx.test("lower_bound_identical_across_formats", ok)
                 if not ok:
-                    ctx.violation("bounds change with the representation of identically labelled graphs: %s vs %s"
+                    ctx.violation("lower bound changes with the representation of identically labelled graphs: %s vs %s"
                                   % ((lb0, ub0), (lb, ub)), dict(case, other_entries=[U1, U2]), law="formats")
+                elif ub != ub0:
+                    report(ctx, "upper bound (same RNG seed) changes with the representation of identically labelled graphs: "
+                           "%s vs %s; the statement promises this only for lower bounds" % ((lb0, ub0), (lb, ub)),
+                           dict(case, other_entries=[U1, U2]), found_input=False, correspondence="ub across formats")
             if not okb:
                 ctx.violation("lower bound above upper bound", case, law="lb_le_ub")
             if stop(ctx):
@@ -943,22 +1034,28 @@ def stream_collections(ctx):
         ctx.case(case, nontrivial=N >= 3, sample_every=29)
         ctx.count("collection:N=%d" % N)
         disc = any(o_space(m["entries"])[1] for m in metas)
-        okr = st == "ok" and (("UserWarning" in w) == disc)
+        okr = st == "ok" and warning_verdict(w, disc) is None
         ctx.test("collection_no_raise_and_warns_iff_disconnected", okr)
         if not okr:
             ctx.violation("gromov_hausdorff(As): %s, warnings %s, disconnected=%s"
-                          % ("raised " + str(val) if st == "err" else "returned", sorted(set(w)), disc), case, law="graceful")
+                          % ("raised " + str(val) if st == "err" else "returned; " + str(warning_verdict(w, disc)), wnames(w), disc),
+                          case, law="graceful")
             if stop(ctx):
                 return
             continue
         lbs, ubs = np.asarray(val[0]), np.asarray(val[1])
-        why = coll_property(ctx, metas, objs, lbs, ubs, calls, case)
+        why, attribution = coll_property(ctx, metas, objs, lbs, ubs, calls, case)
         code = [lbs.tolist(), ubs.tolist(), len(calls)]
         model = ans if isinstance(ans, str) else [[[float(x) for x in row] for row in ans[0]],
                                                    [[float(x) for x in row] for row in ans[1]], int(ans[2])]
         symm = ans_symm if isinstance(ans_symm, str) else [[float(x) for x in row] for row in ans_symm]
         if why is not None:
             ctx.violation("gromov_hausdorff(As), N=%d: %s" % (N, why), case, law="collection")
+        elif attribution is not None:
+            # HOW the entries are computed (one estimate call per pair, right after that pair's two distance matrices, each
+            # entry equal to the pair call from the RNG state reached there) is the model's dispatch, not the statement
+            report(ctx, "collection entries are valid but not computed as in the model: %s" % attribution, case,
+                   found_input=False, correspondence="gr.gh coll (entry = pair call from the recorded RNG state)")
         elif code != model or symm != code[0]:
             report(ctx, "collection dispatch differs from the model although the statement's laws hold on the code: "
                           "code=%s model=%s" % (short(code), short(model)), case, found_input=False,
@@ -976,13 +1073,21 @@ def stream_collections(ctx):
 
 
 def coll_property(ctx, metas, objs, lbs, ubs, calls, case):
-    """the statement's laws for a collection result, on the real code; None or a description"""
+    """the statement's laws for a collection result, on the real code.  Returns (why, attribution):
+    `why`         None or how the STATEMENT fails: N x N, symmetric, zero diagonal, lb <= ub, every entry brackets the
+                  pairwise distance (exhaustive oracle for small spaces; 0 for identical spaces), and the lower bound is the
+                  one the pair call gives for the same two inputs in any RNG state (identical lower bounds for identical
+                  labelings);
+    `attribution` None or how the result differs from the MODEL's dispatch (entry (i,j) equals the pair call started from
+                  the RNG state of the estimate call recorded right after the distance matrices of inputs i and j were
+                  made).  An implementation that makes the distance matrices once, outside the pair loop, or draws its random
+                  maps in another order is not against the statement: correspondence only."""
     N = len(metas)
     why = None
     ok = lbs.shape == (N, N) and ubs.shape == (N, N)
     ctx.test("collection_shape", ok)
     if not ok:
-        return "result shapes %s %s" % (lbs.shape, ubs.shape)
+        return "result shapes %s %s" % (lbs.shape, ubs.shape), None
     ok = bool((lbs == lbs.T).all() and (ubs == ubs.T).all())
     ctx.test("collection_symmetric", ok)
     if not ok:
@@ -991,10 +1096,28 @@ def coll_property(ctx, metas, objs, lbs, ubs, calls, case):
     ctx.test("collection_zero_diagonal", ok)
     if not ok:
         why = why or "diagonal is not zero"
-    # each entry equals the pair call started from the RNG state the collection call had at that point; a recorded
-    # estimate call belongs to the pair (i, j) of the two input objects its distance matrices were made from
-    states = {}
+    ok = bool((lbs <= ubs).all() and (lbs >= 0).all())
+    ctx.test("collection_lb_le_ub", ok)
+    if not ok:
+        why = why or "an entry has lower bound above upper bound (or negative)"
     pairs = [(i, j) for i in range(N) for j in range(i + 1, N)]
+    # --- the statement, pair by pair
+    for (i, j) in pairs:
+        # the lower bound does not consume the RNG: the pair call in any state gives the same lb
+        st2, val2, _, _ = run_gh([objs[i], objs[j]], True, seed=ctx.rng.randrange(2 ** 31))
+        ok = st2 == "ok" and float(val2[0]) == lbs[i, j]
+        ctx.test("lb_deterministic", ok)
+        if not ok:
+            why = why or ("lower bound of pair (%d,%d) is %s in the collection but the pair call gives %s"
+                          % (i, j, lbs[i, j], val2[0] if st2 == "ok" else "error " + str(val2)))
+        okb = check_brackets(ctx, metas[i]["entries"], metas[j]["entries"], float(lbs[i, j]), float(ubs[i, j]),
+                             dict(case, pair=[i, j]), ctx.n(5, 6))
+        if not okb:
+            why = why or "entry (%d,%d) does not bracket the mGH distance" % (i, j)
+    # --- the model's dispatch (correspondence): a recorded estimate call belongs to the pair (i, j) of the two input
+    # objects whose distance matrices were made just before it
+    attribution = None
+    states = {}
 
     def index_of(o):
         hits = [k for k, x in enumerate(objs) if x is o]
@@ -1007,28 +1130,17 @@ def coll_property(ctx, metas, objs, lbs, ubs, calls, case):
     ctx.count("collection_calls_%s" % ("as_modelled" if len(calls) == len(pairs) else "differ"))
     for (i, j) in pairs:
         if (i, j) not in states:
-            ok = lbs[i, j] == 0 and ubs[i, j] == 0 and False
-            ctx.test("collection_entry_is_pair_result", ok)
-            why = why or "no estimate call was made for the pair (%d,%d); entry is (%s,%s)" % (i, j, lbs[i, j], ubs[i, j])
+            ctx.test("collection_entry_is_pair_result", False)
+            attribution = attribution or "no estimate call could be attributed to the pair (%d,%d); entry is (%s,%s)" \
+                % (i, j, lbs[i, j], ubs[i, j])
             continue
         st, val, w, pc = run_gh([objs[i], objs[j]], True, state=states[(i, j)])
         ok = st == "ok" and float(val[0]) == lbs[i, j] and float(val[1]) == ubs[i, j]
         ctx.test("collection_entry_is_pair_result", ok)
         if not ok:
-            why = why or "entry (%d,%d) = (%s,%s) but the pair call under the same RNG state gives %s" \
+            attribution = attribution or "entry (%d,%d) = (%s,%s) but the pair call under the recorded RNG state gives %s" \
                 % (i, j, lbs[i, j], ubs[i, j], val if st == "ok" else "error " + str(val))
-        # lower bound does not consume the RNG: any other state gives the same lb
-        st2, val2, _, _ = run_gh([objs[i], objs[j]], True, seed=ctx.rng.randrange(2 ** 31))
-        ok = st2 == "ok" and float(val2[0]) == lbs[i, j]
-        ctx.test("lb_deterministic", ok)
-        if not ok:
-            why = why or "lower bound of pair (%d,%d) depends on the RNG state" % (i, j)
-        if st == "ok":
-            okb = check_brackets(ctx, metas[i]["entries"], metas[j]["entries"], float(lbs[i, j]), float(ubs[i, j]),
-                                 dict(case, pair=[i, j]), ctx.n(5, 6))
-            if not okb:
-                why = why or "entry (%d,%d) does not bracket the exhaustive mGH distance" % (i, j)
-    return why
+    return why, attribution
 
 
 def short(x, n=300):
@@ -1038,7 +1150,10 @@ def short(x, n=300):
 
 # source translator (DESIGN.md 3.2): part of the model is regenerated from the source text on every run
 TRUSTED = list(TRUSTED) + [py2lean.trusted_note("graph")]
-PROP_FILES = ["PersimVerif/Props/C17.lean"] + py2lean.prop_files("graph")
+# Props/C05C17.lean (the composition with C05's model of `estimate`, 8 of the CORE_THEOREMS) stays in the list that
+# check.py builds and axiom-audits
+HAND_FILES = ["PersimVerif/Props/C17.lean", "PersimVerif/Props/C05C17.lean"]
+PROP_FILES = HAND_FILES + py2lean.prop_files("graph")
 
 
 def pre_build(ctx):
@@ -1058,7 +1173,7 @@ def run(ctx):
     for v in summ.values():      # the anchored functions are lines 116-265 (dispatch, make_distance_matrix, int type)
         v["missed_lines_in_anchored_range_116_265"] = [x for x in v.pop("missed_lines") if 116 <= x <= 265]
     ctx.extra["line_coverage_probe"] = summ
-    ctx.extra["core_theorems"] = CORE_THEOREMS
+    corethm.record(ctx, CORE_THEOREMS, HAND_FILES)     # a core name not declared in those files is an internal error
     for stream in (stream_dist, stream_inttype, stream_limits, stream_big_pairs, stream_relabel_lb, stream_pairs, stream_collections):
         stream(ctx)
         if stop(ctx):
@@ -1092,14 +1207,15 @@ def replay(ctx, rep):
         ok = why is None
         if ok and "other_entries" in c:
             other = run_dist(pack(c["other_entries"], c.get("other_container", "list")))
-            if c.get("perm") and other[0] == "ok" and other[3]:
-                ok = relabelled_block_ok(c["other_entries"], c["perm"], canon_dist(code))[0]
+            if c.get("perm") and other[0] == "ok" and o_space(c["other_entries"])[1]:
+                ok = relabelled_block_ok(c["other_entries"], c["perm"], canon_dist(code),
+                                         warned=code[0] == "ok" and warned_any(code[5]))[0]
             elif c.get("perm"):
                 p = c["perm"]
                 ok = code[0] == "ok" and other[0] == "ok" and \
                     code[1] == [[other[1][p[a]][p[b]] for b in range(len(p))] for a in range(len(p))]
             else:
-                ok = canon_dist(other) == canon_dist(code)
+                ok = law_canon(other) == law_canon(code)
             why = None if ok else "representations disagree"
         print("statement:", why or "holds")
         return ok
@@ -1110,16 +1226,14 @@ def replay(ctx, rep):
     if op == "inttype":
         v = c["value"]
         st, t, _ = call(gh().determine_optimal_int_type, v)
-        print("code:", t)
-        if st == "err":
-            return v > 2 ** 63 - 1
-        return v <= 2 ** (np.dtype(t).itemsize * 8 - 1) - 1
+        print("code:", t, "(a private helper's dtype choice: correspondence only, the statement cannot fail here)")
+        return True
     if op in ("pair", "coll"):
         objs = [pack(E, k) for E, k in zip(c["entries"], c["containers"])]
         st, val, w, calls = run_gh(objs, op == "pair", seed=c["seed"])
-        print("code:", st, short(val, 600), sorted(set(w)))
+        print("code:", st, short(val, 600), wnames(w))
         disc = any(o_space(E)[1] for E in c["entries"])
-        if st != "ok" or ("UserWarning" in w) != disc:
+        if st != "ok" or warning_verdict(w, disc) is not None:
             return False
         before = len(ctx.violations)
         if op == "pair":
@@ -1127,11 +1241,11 @@ def replay(ctx, rep):
             ok = lb <= ub and check_brackets(ctx, c["entries"][0], c["entries"][1], lb, ub, c, 6)
             if ok and "other_entries" in c:
                 st2, val2, _, _ = run_gh(c["other_entries"], True, seed=c["seed"])
-                ok = st2 == "ok" and (float(val2[0]), float(val2[1])) == (lb, ub)
+                ok = st2 == "ok" and float(val2[0]) == lb            # identical LOWER bounds are what is promised
             return ok and before == len(ctx.violations)
         metas = [{"entries": E, "container": k} for E, k in zip(c["entries"], c["containers"])]
-        why = coll_property(ctx, metas, objs, np.asarray(val[0]), np.asarray(val[1]), calls, c)
-        print("statement:", why or "holds")
+        why, attribution = coll_property(ctx, metas, objs, np.asarray(val[0]), np.asarray(val[1]), calls, c)
+        print("statement:", why or "holds", "| model's dispatch:", attribution or "as modelled")
         return why is None and before == len(ctx.violations)
     print("correspondence-only replay (no failing input was found): re-run `./check.py C17` with VERIF_SEED=%s" % rep.get("seed"))
     return True
@@ -1170,12 +1284,17 @@ MANIFEST = {
             "2*mGH <= c is invariant under relabelling (spec level); "
             "the pre-fix rows-only fallback is shown non-square by `decide`. The model is tied to the code on every run by exact comparison "
             "(distance matrix, warning, dtype, error kind, component labels, dispatch with the recorded estimate calls replayed into the "
-            "model) on generated graphs in 15 containers x orientations x weights x relabellings.",
+            "model) on generated graphs in 15 containers x orientations x weights x relabellings. What the statement does not fix "
+            "(dtype, warning category, upper bounds across formats, the order/attribution of estimate calls inside a collection "
+            "call) is compared with the model only and reported as no-failing-input-found; a failing input is claimed for wrong "
+            "distances / non-metrics, raising, a missing warning, a disconnected-graph warning on connected graphs, differing lower "
+            "bounds, asymmetric / non-zero-diagonal / non-bracketing collection entries.",
     "note": "Trusted: Lean kernel, axioms propext/Classical.choice/Quot.sound; the correspondence harness; scipy csgraph "
             "shortest_path/connected_components and numpy unique/argmax/mask indexing/astype as contracts (compared exactly with the model "
             "on every case). In Props/C17.lean `estimate` is a parameter (its soundness is C05); Props/C05C17.lean instantiates it with C05's model, "
             "so the composed theorems additionally trust C05's correspondence (estimate downwards, recorded draws replayed), not a new one. [T] only: bracket validity against the exhaustive mGH oracle "
-            "(<= 6 vertices; for SOME choice among tied largest components), container unpacking, warnings raised by the real code, "
+            "(<= 6 vertices; for SOME choice among tied largest components; pairs beyond that range are counted as skipped, except "
+            "identical spaces whose lower bound must be 0), container unpacking, warnings raised by the real code, "
             "NumPy's dtype promotion, the pairs of 128/129-vertex graphs through the public entry point (no exception, lb <= ub, lb = 0 "
             "for isomorphic pairs). DOCUMENTED LIMIT (one [T] case shows it on the real code): scipy's dense reader treats |x| <= 1e-8, "
             "NaN and inf as 'no edge', while a sparse matrix counts every stored entry - even an explicit 0 - as an edge, so a dense "
